@@ -220,6 +220,110 @@ fn float_oracles(st: &mut Stats, rng: &mut Rng, thorough: bool) {
     }
 }
 
+/// "ordering of values equals ordering of raw bits": for every scalar type T and its big-endian
+/// wrapper, every comparison operator, `cmp`, `partial_cmp`, sort, min and max agree with the order
+/// of the underlying integers (signed for signed types).
+fn ord_oracle<T, R>(st: &mut Stats, name: &str, raws: &[R], mk: impl Fn(R) -> T)
+where
+    T: font_types::Scalar + Copy + Ord + std::fmt::Debug,
+    <T as font_types::Scalar>::Raw: Eq,
+    R: Copy + Ord + std::fmt::Debug,
+{
+    use font_types::BigEndian;
+    use std::cmp::Ordering;
+    let mut fail = |st: &mut Stats, which: &str, a: R, b: R| {
+        st.oracle_failure(json!({"key": format!("order:{}:{}", name, which), "a": format!("{:?}", a), "b": format!("{:?}", b)}));
+    };
+    for &a in raws {
+        for &b in raws {
+            st.evaluations += 1;
+            let want = a.cmp(&b);
+            let (x, y) = (mk(a), mk(b));
+            if x.cmp(&y) != want { fail(st, "T::cmp", a, b); }
+            if x.partial_cmp(&y) != Some(want) { fail(st, "T::partial_cmp", a, b); }
+            if (x < y) != (want == Ordering::Less) || (x <= y) != (want != Ordering::Greater)
+                || (x > y) != (want == Ordering::Greater) || (x >= y) != (want != Ordering::Less) { fail(st, "T::operators", a, b); }
+            if (x == y) != (want == Ordering::Equal) { fail(st, "T::eq", a, b); }
+            if (x.max(y) == x) != (want != Ordering::Less) && want != Ordering::Equal { fail(st, "T::max", a, b); }
+            let (bx, by): (BigEndian<T>, BigEndian<T>) = (x.into(), y.into());
+            if bx.cmp(&by) != want { fail(st, "BigEndian::cmp", a, b); }
+            if bx.partial_cmp(&by) != Some(want) { fail(st, "BigEndian::partial_cmp", a, b); }
+            if (bx < by) != (want == Ordering::Less) || (bx <= by) != (want != Ordering::Greater)
+                || (bx > by) != (want == Ordering::Greater) || (bx >= by) != (want != Ordering::Less) { fail(st, "BigEndian::operators", a, b); }
+            if (bx == by) != (want == Ordering::Equal) { fail(st, "BigEndian::eq", a, b); }
+            if bx.max(by).get() != x.max(y) || bx.min(by).get() != x.min(y) { fail(st, "BigEndian::min/max", a, b); }
+            if (bx == y) != (want == Ordering::Equal) { fail(st, "BigEndian::eq<T>", a, b); }
+        }
+    }
+    // sort / binary_search agree with the integer order
+    let mut sorted_raw: Vec<R> = raws.to_vec();
+    sorted_raw.sort();
+    sorted_raw.dedup();
+    let mut bes: Vec<BigEndian<T>> = raws.iter().map(|&r| mk(r).into()).collect();
+    bes.sort();
+    bes.dedup();
+    let got: Vec<T> = bes.iter().map(|b| b.get()).collect();
+    let want: Vec<T> = sorted_raw.iter().map(|&r| mk(r)).collect();
+    if got != want { fail(st, "BigEndian::sort", raws[0], raws[0]); }
+    for (i, &r) in sorted_raw.iter().enumerate() {
+        let probe: BigEndian<T> = mk(r).into();
+        if bes.binary_search(&probe) != Ok(i) { fail(st, "BigEndian::binary_search", r, r); }
+    }
+    let mut ts: Vec<T> = raws.iter().map(|&r| mk(r)).collect();
+    ts.sort();
+    ts.dedup();
+    if ts != want { fail(st, "T::sort", raws[0], raws[0]); }
+    st.count(&format!("order_{}", name));
+}
+
+fn order_oracles(st: &mut Stats, rng: &mut Rng) {
+    use font_types::*;
+    let mut r8: Vec<i64> = vec![-128, -127, -2, -1, 0, 1, 2, 126, 127];
+    let mut r16: Vec<i64> = vec![-32768, -32767, -16385, -16384, -257, -256, -255, -129, -128, -2, -1, 0, 1, 2, 127, 128, 255, 256, 257, 16383, 16384, 32766, 32767];
+    let mut r24: Vec<i64> = vec![-8388608, -8388607, -65537, -65536, -65535, -257, -256, -1, 0, 1, 255, 256, 65535, 65536, 65537, 8388606, 8388607];
+    let mut r32: Vec<i64> = vec![i32::MIN as i64, i32::MIN as i64 + 1, -16777217, -16777216, -65537, -65536, -65535, -256, -1, 0, 1, 255, 256, 65535, 65536, 16777215, 16777216, i32::MAX as i64 - 1, i32::MAX as i64];
+    let mut r64: Vec<i64> = vec![i64::MIN, i64::MIN + 1, -(1 << 56), -(1 << 32) - 1, -(1 << 32), -65536, -256, -1, 0, 1, 255, 256, 65536, 1 << 32, (1 << 32) + 1, 1 << 56, i64::MAX - 1, i64::MAX];
+    for _ in 0..12 {
+        r8.push(rng.range(-128, 127));
+        r16.push(rng.range(-32768, 32767));
+        r24.push(rng.range(-8388608, 8388607));
+        r32.push(rng.next_u32() as i32 as i64);
+        r64.push(rng.next_u64() as i64);
+    }
+    let s8: Vec<i8> = r8.iter().map(|&v| v as i8).collect();
+    let u8s: Vec<u8> = r8.iter().map(|&v| v as u8).collect();
+    let s16: Vec<i16> = r16.iter().map(|&v| v as i16).collect();
+    let u16s: Vec<u16> = r16.iter().map(|&v| v as u16).collect();
+    let s24: Vec<i32> = r24.iter().map(|&v| v as i32).collect();
+    let u24s: Vec<u32> = r24.iter().map(|&v| (v as u32) & 0xFF_FFFF).collect();
+    let s32: Vec<i32> = r32.iter().map(|&v| v as i32).collect();
+    let u32s: Vec<u32> = r32.iter().map(|&v| v as u32).collect();
+    ord_oracle(st, "i8", &s8, |r| r);
+    ord_oracle(st, "u8", &u8s, |r| r);
+    ord_oracle(st, "i16", &s16, |r| r);
+    ord_oracle(st, "u16", &u16s, |r| r);
+    ord_oracle(st, "i32", &s32, |r| r);
+    ord_oracle(st, "u32", &u32s, |r| r);
+    ord_oracle(st, "i64", &r64, |r| r);
+    ord_oracle(st, "Int24", &s24, Int24::new);
+    ord_oracle(st, "Uint24", &u24s, Uint24::new);
+    ord_oracle(st, "FWord", &s16, FWord::new);
+    ord_oracle(st, "UfWord", &u16s, UfWord::new);
+    ord_oracle(st, "F2Dot14", &s16, F2Dot14::from_bits);
+    ord_oracle(st, "F4Dot12", &s16, F4Dot12::from_bits);
+    ord_oracle(st, "F6Dot10", &s16, F6Dot10::from_bits);
+    ord_oracle(st, "Fixed", &s32, Fixed::from_bits);
+    ord_oracle(st, "LongDateTime", &r64, LongDateTime::new);
+    ord_oracle(st, "Version16Dot16", &u32s, |r| <Version16Dot16 as Scalar>::from_raw(r.to_be_bytes()));
+    ord_oracle(st, "MajorMinor", &u32s, |r| MajorMinor::new((r >> 16) as u16, r as u16));
+    ord_oracle(st, "Tag", &u32s, Tag::from_u32);
+    ord_oracle(st, "GlyphId16", &u16s, GlyphId16::new);
+    ord_oracle(st, "NameId", &u16s, NameId::new);
+    ord_oracle(st, "Offset16", &u16s, Offset16::new);
+    ord_oracle(st, "Offset24", &u24s, |r| Offset24::new(Uint24::new(r)));
+    ord_oracle(st, "Offset32", &u32s, Offset32::new);
+}
+
 fn main() {
     silence_panics();
     let args: Vec<String> = std::env::args().collect();
@@ -340,6 +444,7 @@ fn main() {
         }
     }
     float_oracles(&mut st, &mut rng, thorough);
+    order_oracles(&mut st, &mut rng);
     let shards = cw.finish();
     st.v.insert("shards".into(), shards.into());
     st.v.insert("model_cases".into(), cw.len().into());
